@@ -14,8 +14,6 @@ import (
 
 // Aliases for types that need no scheduler involvement.
 type (
-	// Pool is sync.Pool.
-	Pool = sync.Pool
 	// Map is sync.Map.
 	Map = sync.Map
 	// Locker is sync.Locker.
@@ -23,6 +21,72 @@ type (
 	// Cond is sync.Cond.
 	Cond = sync.Cond
 )
+
+// Pool is sync.Pool.  Under a simulation it is deterministic and as eager to
+// recycle as a pool may be: Get returns the most recently Put object whenever
+// there is one (sync.Pool's own choice depends on the P the goroutine runs on
+// and on GC timing).  An object that is still in use after it was Put is
+// thereby handed to the next Get at once.
+type Pool struct {
+	New func() any
+
+	real  sync.Pool
+	gen   uint64
+	slots [64]any
+	n     int
+}
+
+// Get selects an object from the pool, or calls New.
+//
+//go:norace
+func (p *Pool) Get() any {
+	t := simrt.Current()
+	if t == nil {
+		if p.real.New == nil && p.New != nil {
+			p.real.New = p.New
+		}
+		return p.real.Get()
+	}
+	s := t.Sim()
+	if p.gen != s.Gen() {
+		p.gen, p.n = s.Gen(), 0
+	}
+	if p.n > 0 {
+		p.n--
+		x := p.slots[p.n]
+		p.slots[p.n] = nil
+		simrt.RaceAcquire(&p.slots[p.n])
+		s.Count("sync.pool_reuse", 1)
+		return x
+	}
+	if p.New != nil {
+		return p.New()
+	}
+	return nil
+}
+
+// Put adds x to the pool.
+//
+//go:norace
+func (p *Pool) Put(x any) {
+	if x == nil {
+		return
+	}
+	t := simrt.Current()
+	if t == nil {
+		p.real.Put(x)
+		return
+	}
+	s := t.Sim()
+	if p.gen != s.Gen() {
+		p.gen, p.n = s.Gen(), 0
+	}
+	if p.n < len(p.slots) {
+		simrt.RaceRelease(&p.slots[p.n])
+		p.slots[p.n] = x
+		p.n++
+	}
+}
 
 // NewCond is sync.NewCond.
 //
